@@ -43,7 +43,7 @@ func streamSuite(r *Run, prop string) {
 	r.Rule = "quiescence-sequenced scripts over the op alphabet {cs.send, cs.closesend, cr.recv, cr.header, cr.trailer, h.recv, h.send, h.setheader, h.sendheader, h.settrailer, h.return(nil|status|plain|ctx error), env.cancel, env.expire} on the in-process channel (all interleavings, checked against the Lean transition system by a subset-construction explorer) and on the HTTP channel over the in-memory transport (half-duplex scripts, oracle only); all stream kinds. Oracle for this property: " + rules[prop] + ". Non-trivial: the script contains an operation of the kind the property is about that blocked, failed or raced; distinct by script."
 	r.Assumptions = append(r.Assumptions, "goroutine park states from runtime.Stack identify blocked operations")
 	rng := r.Rng
-	n := r.Budget(70, 3000)
+	n := r.Budget(500, 6000)
 	baseline := relevantGoroutines()
 	for i := 0; i < n; i++ {
 		transport := "inproc"
@@ -247,6 +247,30 @@ func streamSuite(r *Run, prop string) {
 			nontrivial = cancelled || h.returnStep >= 0
 			if len(sc.stillBusy) > 0 {
 				r.Violate(transport+"/stream/blocked-after-completion", "once the server handler has returned or the call's context is done, every blocked or later operation completes in bounded time", sprintf("still blocked after the handler returned and the context ended: %v", sc.stillBusy), desc, line)
+			}
+			// once the handler has returned, no client operation may stay blocked: a pending SendMsg sees the
+			// server-done signal, a pending RecvMsg/Header gets the final frames
+			if h.returnStep >= 0 {
+				end := len(sc.steps)
+				if cancelled {
+					end = h.cancelStep
+				}
+				if end > sc.bodyLen {
+					end = sc.bodyLen
+				}
+				for _, o := range h.ops {
+					if o.actor == "h" || o.step >= end || h.returnStep >= end {
+						continue
+					}
+					deadline := o.step
+					if h.returnStep > deadline {
+						deadline = h.returnStep
+					}
+					if o.doneStep < 0 || o.doneStep > deadline {
+						r.Violate(transport+"/stream/client-op-blocked-after-handler-returned", "once the server handler has returned every blocked or later client operation completes in bounded time",
+							sprintf("%s.%s issued at step %d was still blocked after the handler had returned at step %d (completed at step %d; -1 = never)", o.actor, o.op, o.step, h.returnStep, o.doneStep), desc, line)
+					}
+				}
 			}
 			if h.returnStep >= 0 && !cancelled {
 				for _, o := range h.byActorOp("cs", "send") {
